@@ -40,38 +40,31 @@ Proof.
   - rewrite (Z.mod_small z) by lia. rewrite Z.mod_small by lia. lia.
 Qed.
 
-(* the constructor is the absolute value, and stays in 0 .. 2^31-1, for every i32 except i32::MIN *)
-Lemma digest_id_new_abs release i :
-  in_i32 i = true -> i <> i32_min -> digest_id_new release i = IdValue (Z.abs i).
+(* the constructor is min(|i|, 2^31-1) for every i32, in both build modes *)
+Lemma digest_id_new_sat release i :
+  in_i32 i = true -> digest_id_new release i = Z.min (Z.abs i) i32_max.
 Proof.
-  intros H Hne. apply in_i32_iff in H. unfold i32_min, i32_max in *.
-  unfold digest_id_new, neg_i32. destruct (Z.ltb_spec i 0).
-  - assert (Hin : in_i32 (- i) = true) by (apply in_i32_iff; unfold i32_min, i32_max; lia).
-    rewrite Hin. f_equal. lia.
-  - f_equal. lia.
+  intros H. apply in_i32_iff in H. unfold i32_min, i32_max in *.
+  unfold digest_id_new, saturating_abs_i32. destruct (Z.ltb_spec i 0).
+  - destruct (in_i32 (- i)) eqn:Hin.
+    + apply in_i32_iff in Hin. unfold i32_min, i32_max in Hin. lia.
+    + assert (Hn : ~ (i32_min <= - i <= i32_max)%Z) by (rewrite <- in_i32_iff; congruence).
+      unfold i32_min, i32_max in *. lia.
+  - lia.
 Qed.
 
 Lemma digest_id_new_range release i :
-  in_i32 i = true -> i <> i32_min ->
-  exists v, digest_id_new release i = IdValue v /\ (0 <= v < 2147483648)%Z.
+  in_i32 i = true -> (0 <= digest_id_new release i < 2147483648)%Z.
 Proof.
-  intros H Hne. exists (Z.abs i). split; [apply digest_id_new_abs; assumption|].
-  apply in_i32_iff in H. unfold i32_min, i32_max in *. lia.
+  intros H. rewrite (digest_id_new_sat release i H). apply in_i32_iff in H. unfold i32_min, i32_max in *. lia.
 Qed.
 
-(* at i32::MIN: panic in a debug build, -2^31 in a release build *)
-Lemma digest_id_new_min : digest_id_new false i32_min = IdPanic /\ digest_id_new true i32_min = IdValue i32_min.
-Proof. split; reflexivity. Qed.
+(* at i32::MIN the id is i32::MAX (it used to panic in debug builds and be -2^31 in release builds) *)
+Lemma digest_id_new_min release : digest_id_new release i32_min = i32_max.
+Proof. reflexivity. Qed.
 
-(* whatever an in-range draw gives: either a proper id, or (release only) i32::MIN itself *)
-Lemma digest_id_new_cases release i v :
-  in_i32 i = true -> digest_id_new release i = IdValue v ->
-  (0 <= v < 2147483648)%Z \/ (release = true /\ i = i32_min /\ v = i32_min).
-Proof.
-  intros Hin H. destruct (Z.eq_dec i i32_min) as [->|Hne].
-  - right. destruct release; cbn in H; [inversion H; auto|discriminate].
-  - left. destruct (digest_id_new_range release i Hin Hne) as [v' [E R]]. rewrite E in H. inversion H; subst. exact R.
-Qed.
+Lemma digest_id_new_build_mode i : digest_id_new true i = digest_id_new false i.
+Proof. reflexivity. Qed.
 
 (* ------------------------------------------------------------------------------------------ *)
 (** * generate_digest_id *)
@@ -86,26 +79,22 @@ Proof.
 Qed.
 
 Definition id_from_draw (release : bool) (z : Z) : Prop :=
-  exists w, digest_id_new release (i32_of_word w) = IdValue z.
+  exists w, digest_id_new release (i32_of_word w) = z.
 
 Lemma gen_id_ok release used : forall draws z rest,
   gen_id release used draws = Ok (z, rest) ->
   ~ In z used /\ id_from_draw release z /\ exists pre, draws = pre ++ rest /\ pre <> [].
 Proof.
   induction draws as [|w r IH]; intros z rest H; cbn [gen_id] in H; [discriminate|].
-  destruct (digest_id_new release (i32_of_word w)) as [|v] eqn:E; [discriminate|].
-  destruct (zmem v used) eqn:M.
+  cbv zeta in H. destruct (zmem (digest_id_new release (i32_of_word w)) used) eqn:M.
   - apply IH in H as [H1 [H2 [pre [H3 H4]]]]. split; [exact H1|]. split; [exact H2|].
     exists (w :: pre). split; [rewrite H3; reflexivity|discriminate].
-  - inversion H; subst. split; [apply zmem_false_iff; exact M|]. split; [exists w; exact E|].
+  - inversion H; subst. split; [apply zmem_false_iff; exact M|]. split; [exists w; reflexivity|].
     exists [w]. split; [reflexivity|discriminate].
 Qed.
 
-Lemma id_from_draw_range release z :
-  id_from_draw release z -> (0 <= z < 2147483648)%Z \/ (release = true /\ z = i32_min).
-Proof.
-  intros [w H]. destruct (digest_id_new_cases release _ z (i32_of_word_in w) H) as [R|[R1 [_ R2]]]; [left; exact R|right; auto].
-Qed.
+Lemma id_from_draw_range release z : id_from_draw release z -> (0 <= z < 2147483648)%Z.
+Proof. intros [w <-]. apply digest_id_new_range. apply i32_of_word_in. Qed.
 
 (* ------------------------------------------------------------------------------------------ *)
 (** * to_issuer_signed_items *)
@@ -189,7 +178,7 @@ Qed.
 Lemma gen_id_not_err release used draws e : gen_id release used draws <> Err e.
 Proof.
   induction draws as [|w d IH]; cbn [gen_id]; [discriminate|].
-  destruct (digest_id_new release (i32_of_word w)); [discriminate|]. destruct (zmem z used); [exact IH|discriminate].
+  cbv zeta. destruct (zmem (digest_id_new release (i32_of_word w)) used); [exact IH|discriminate].
 Qed.
 
 Lemma take_tape_not_err n s e : take_tape n s <> Err e.
@@ -775,3 +764,133 @@ Proof.
   - exact Hp.
   - exact Hc.
 Qed.
+
+(* ------------------------------------------------------------------------------------------ *)
+(** * No panic, and no dependence on the build mode (after the repair of DigestId::new) *)
+
+Lemma gen_id_no_panic release used draws : gen_id release used draws <> Panic.
+Proof.
+  induction draws as [|w d IH]; cbn [gen_id]; [discriminate|].
+  cbv zeta. destruct (zmem (digest_id_new release (i32_of_word w)) used); [exact IH|discriminate].
+Qed.
+
+Lemma take_tape_no_panic n s : take_tape n s <> Panic.
+Proof. unfold take_tape. destruct (take_drop n s); discriminate. Qed.
+
+Lemma take_decoy_no_panic s : take_decoy s <> Panic.
+Proof.
+  destruct s as [b|[|d r]]; cbn [take_decoy]; try discriminate.
+  unfold take_tape. destruct (take_drop decoy_len b) as [[x y]|]; cbn; discriminate.
+Qed.
+
+Lemma make_items_no_panic release : forall elems used t, make_items release used elems t <> Panic.
+Proof.
+  induction elems as [|[k v] r IH]; intros used t H; cbn [make_items] in H; [discriminate|].
+  destruct (gen_id release used (t_ids t)) as [[id ids']|e0| |] eqn:G; cbn [bind] in H; try discriminate.
+  - destruct (take_tape salt_len (t_salt t)) as [[s s']|e1| |] eqn:T; cbn [bind] in H; try discriminate.
+    + destruct (make_items release (id :: used) r _) as [[its0 t0]|e2| |] eqn:M; cbn [bind] in H; try discriminate.
+      eapply IH; exact M.
+    + eapply take_tape_no_panic; exact T.
+  - eapply gen_id_no_panic; exact G.
+Qed.
+
+Lemma make_namespaces_no_panic release : forall nss t, make_namespaces release nss t <> Panic.
+Proof.
+  induction nss as [|[name elems] r IH]; intros t H; cbn [make_namespaces] in H; [discriminate|].
+  destruct (make_items release [] elems t) as [[its t1]|e0| |] eqn:E1; cbn [bind] in H; try discriminate.
+  - destruct its as [|it its]; [discriminate|].
+    destruct (make_namespaces release r t1) as [[rest t2]|e1| |] eqn:E2; cbn [bind] in H; try discriminate.
+    eapply IH; exact E2.
+  - eapply make_items_no_panic; exact E1.
+Qed.
+
+Lemma gen_decoys_no_panic release : forall n used t, gen_decoys release n used t <> Panic.
+Proof.
+  induction n as [|n IH]; intros used t H; cbn [gen_decoys] in H; [discriminate|].
+  destruct (gen_id release used (t_ids t)) as [[id ids']|e0| |] eqn:G; cbn [bind] in H; try discriminate.
+  - destruct (take_decoy (t_decoy t)) as [[s s']|e1| |] eqn:T; cbn [bind] in H; try discriminate.
+    + destruct (gen_decoys release n (id :: used) _) as [[r0 t0]|e2| |] eqn:M; cbn [bind] in H; try discriminate.
+      eapply IH; exact M.
+    + eapply take_decoy_no_panic; exact T.
+  - eapply gen_id_no_panic; exact G.
+Qed.
+
+Lemma digest_namespace_no_panic release alg decoys its t : digest_namespace release alg decoys its t <> Panic.
+Proof.
+  unfold digest_namespace. intro H.
+  destruct (decoy_count decoys t) as [[n t1]|e0| |] eqn:Ec; cbn [bind] in H; try discriminate.
+  - destruct (gen_decoys release n (map it_id its) t1) as [[ds t2]|e1| |] eqn:Eg; cbn [bind] in H; try discriminate.
+    eapply gen_decoys_no_panic; exact Eg.
+  - unfold decoy_count in Ec. destruct decoys; [|discriminate]. destruct (t_counts t); discriminate.
+Qed.
+
+Lemma digest_namespaces_no_panic release alg decoys : forall nss t, digest_namespaces release alg decoys nss t <> Panic.
+Proof.
+  induction nss as [|[name its] r IH]; intros t H; cbn [digest_namespaces] in H; [discriminate|].
+  destruct (digest_namespace release alg decoys its t) as [[d t1]|e0| |] eqn:E1; cbn [bind] in H; try discriminate.
+  - destruct (digest_namespaces release alg decoys r t1) as [[rest t2]|e1| |] eqn:E2; cbn [bind] in H; try discriminate.
+    eapply IH; exact E2.
+  - eapply digest_namespace_no_panic; exact E1.
+Qed.
+
+Lemma prepare_no_panic release q t : prepare release q t <> Panic.
+Proof.
+  unfold prepare. destruct (match q_auth q with Some a => double_authorized a | None => None end); [discriminate|].
+  unfold to_issuer_namespaces.
+  destruct (make_namespaces release (q_namespaces q) t) as [[out t0]|e0| |] eqn:Em; cbn [bind]; try discriminate.
+  - destruct out as [|o outs]; [discriminate|]. cbn [bind].
+    destruct (digest_namespaces release (q_alg q) (q_decoys q) (o :: outs) t0) as [[vd t2]|e1| |] eqn:Ed; cbn [bind]; try discriminate.
+    intros _. eapply digest_namespaces_no_panic; exact Ed.
+  - intros _. eapply make_namespaces_no_panic; exact Em.
+Qed.
+
+Lemma issue_no_panic release q t x5 sign : issue release q t x5 sign <> Panic.
+Proof.
+  unfold issue. destruct (prepare release q t) as [p|e| |] eqn:E; cbn [bind]; try discriminate.
+  - destruct (sign (pm_tbs p)); discriminate.
+  - intros _. eapply prepare_no_panic; exact E.
+Qed.
+
+Lemma gen_id_build_mode used draws : gen_id true used draws = gen_id false used draws.
+Proof. induction draws as [|w d IH]; cbn [gen_id]; [reflexivity|]. cbv zeta. unfold digest_id_new. rewrite IH. reflexivity. Qed.
+
+Lemma make_items_build_mode : forall elems used t, make_items true used elems t = make_items false used elems t.
+Proof.
+  induction elems as [|[k v] r IH]; intros used t; cbn [make_items]; [reflexivity|].
+  rewrite gen_id_build_mode. destruct (gen_id false used (t_ids t)) as [[id ids']| | |]; cbn [bind]; try reflexivity.
+  destruct (take_tape salt_len (t_salt t)) as [[s s']| | |]; cbn [bind]; try reflexivity. rewrite IH. reflexivity.
+Qed.
+
+Lemma make_namespaces_build_mode : forall nss t, make_namespaces true nss t = make_namespaces false nss t.
+Proof.
+  induction nss as [|[name elems] r IH]; intros t; cbn [make_namespaces]; [reflexivity|].
+  rewrite make_items_build_mode. destruct (make_items false [] elems t) as [[its t1]| | |]; cbn [bind]; try reflexivity.
+  destruct its; [reflexivity|]. rewrite IH. reflexivity.
+Qed.
+
+Lemma gen_decoys_build_mode : forall n used t, gen_decoys true n used t = gen_decoys false n used t.
+Proof.
+  induction n as [|n IH]; intros used t; cbn [gen_decoys]; [reflexivity|].
+  rewrite gen_id_build_mode. destruct (gen_id false used (t_ids t)) as [[id ids']| | |]; cbn [bind]; try reflexivity.
+  destruct (take_decoy (t_decoy t)) as [[s s']| | |]; cbn [bind]; try reflexivity. rewrite IH. reflexivity.
+Qed.
+
+Lemma digest_namespaces_build_mode alg decoys : forall nss t,
+  digest_namespaces true alg decoys nss t = digest_namespaces false alg decoys nss t.
+Proof.
+  induction nss as [|[name its] r IH]; intros t; cbn [digest_namespaces]; [reflexivity|].
+  unfold digest_namespace. destruct (decoy_count decoys t) as [[n t1]| | |]; cbn [bind]; try reflexivity.
+  rewrite gen_decoys_build_mode. destruct (gen_decoys false n (map it_id its) t1) as [[ds t2]| | |]; cbn [bind]; try reflexivity.
+  rewrite IH. reflexivity.
+Qed.
+
+Lemma prepare_build_mode q t : prepare true q t = prepare false q t.
+Proof.
+  unfold prepare, to_issuer_namespaces. rewrite make_namespaces_build_mode.
+  destruct (match q_auth q with Some a => double_authorized a | None => None end); [reflexivity|].
+  destruct (make_namespaces false (q_namespaces q) t) as [[out t0]| | |]; cbn [bind]; try reflexivity.
+  destruct out; [reflexivity|]. cbn [bind]. rewrite digest_namespaces_build_mode. reflexivity.
+Qed.
+
+Lemma issue_build_mode q t x5 sign : issue true q t x5 sign = issue false q t x5 sign.
+Proof. unfold issue. rewrite prepare_build_mode. reflexivity. Qed.
